@@ -568,9 +568,7 @@ class AdjointLinearOperator(LinearOperator):
             (_shape2str(self.shape), _indent(self.obj.__repr__(), 3))
 
     def _mv(self, x: torch.Tensor) -> torch.Tensor:
-        if not self.obj.is_rmv_implemented:
-            raise RuntimeError("The ._rmv of must be implemented to call .H.mv()")
-        return self.obj._rmv(x)
+        return self.obj.rmv(x)
 
     def _rmv(self, x: torch.Tensor) -> torch.Tensor:
         return self.obj._mv(x)
@@ -667,7 +665,7 @@ class MulLinearOperator(LinearOperator):
         return self.a._mv(x) * self.f
 
     def _rmv(self, x: torch.Tensor) -> torch.Tensor:
-        return self.a._rmv(x) * self.f
+        return self.a.rmv(x) * self.f
 
     def _getparamnames(self, prefix: str = "") -> List[str]:
         pnames = self.a._getparamnames(prefix=prefix + "a.")
